@@ -39,10 +39,10 @@ Definition init_units (n : nat) (f : cnf) : list Z :=
   fold_left init_unit_step f (repeat 0 n).
 
 (* ================================================================== *)
-(* 2. (pb *Problem).unsat()  -- problem.go:51-108                       *)
+(* 2. (pb *Problem).unsat()  -- problem.go:51-112                       *)
 
 (* Outcome of the inner loop over the literals of one clause
-   (problem.go:60-80).                                                  *)
+   (problem.go:60-83).                                                  *)
 Inductive scan_res :=
 | SSat              (* sat = true                                        *)
 | SFalse            (* unbound = 0, not sat                              *)
@@ -50,9 +50,10 @@ Inductive scan_res :=
 | SMany.            (* unbound = 2: the loop was left by [break]         *)
 
 (* [unit = None] is unbound = 0; [Some l] is unbound = 1 with unit = l.
-   A second unbound literal leaves the loop (problem.go:73-75): a true
-   literal behind it is not seen, and a clause such as [x; x] with x
-   unbound is NOT recognised as unit.                                    *)
+   An unbound literal equal to [unit] is skipped (problem.go:70-72, the fix
+   of "a clause with a repeated literal was not seen as unit"); any other
+   second unbound literal leaves the loop (76-78): a true literal behind it
+   is not seen.                                                          *)
 Fixpoint scan_clause (u : list Z) (c : clause) (unit : option lit) : scan_res :=
   match c with
   | [] => match unit with None => SFalse | Some l => SUnit l end
@@ -62,17 +63,17 @@ Fixpoint scan_clause (u : list Z) (c : clause) (unit : option lit) : scan_res :=
     if binding =? 0 then
       match unit with
       | None => scan_clause u r (Some lit)
-      | Some _ => SMany
+      | Some l0 => if lit =? l0 then scan_clause u r unit else SMany
       end
     else if binding * lit =? v then SSat
     else scan_clause u r unit
   end.
 
-(* problem.go:93-97 *)
+(* problem.go:96-100 *)
 Definition assign_lit (u : list Z) (l : lit) : list Z :=
   if l <? 0 then set_unit u (- l) (-1) else set_unit u l 1.
 
-(* problem.go:87-89 and 99-101: only original clauses are tagged *)
+(* problem.go:90-92 and 102-104: only original clauses are tagged *)
 Definition tag (nb i : nat) (t : list bool) : list bool :=
   if (i <? nb)%nat then set_nth i true t else t.
 
@@ -89,7 +90,7 @@ Definition pcons (d : bool) (c : clause) (r : pass_res) : pass_res :=
   | PCont mk u t md => PCont ((d, c) :: mk) u t md
   end.
 
-(* One execution of the body of [for modified] : problem.go:55-104.
+(* One execution of the body of [for modified] : problem.go:55-108.
    [i] is the index of the head of [mk] in pb.Clauses.                   *)
 Fixpoint pass (nb i : nat) (mk : marked) (u : list Z) (t : list bool) (md : bool)
   : pass_res :=
@@ -127,19 +128,30 @@ Definition up_unsat (fuel nb : nat) (clauses : cnf) (u : list Z) (t : list bool)
 (* ================================================================== *)
 (* 3. check.go                                                         *)
 
-(* check.go:27-33: the negation of every literal of the line is written
-   over [units] -- overwriting what was there, including what an earlier
-   literal of the same line wrote (tautological lines).                  *)
+(* check.go:35-41: the negation of every literal of the (non tautological)
+   line is written over [units] -- overwriting what was there.           *)
 Definition neg_lit (u : list Z) (l : lit) : list Z :=
   if 0 <? l then set_unit u l (-1) else set_unit u (- l) 1.
 
 Definition neg_assign (u : list Z) (c : clause) : list Z := fold_left neg_lit c u.
 
-(* check.go:22-37.  [units] is restored afterwards, so only the verdict
-   and the tags are returned.                                            *)
+(* check.go:23-29 (the fix of "tautological lines were rejected"): does a
+   literal of the line have its complement among the literals before it ?  *)
+Fixpoint taut_scan (seen : list lit) (c : clause) : bool :=
+  match c with
+  | [] => false
+  | l :: r => if existsb (fun l2 => l2 =? - l) seen then true else taut_scan (l :: seen) r
+  end.
+
+Definition is_taut (c : clause) : bool := taut_scan [] c.
+
+(* check.go:22-45.  A tautological line is accepted at once: [units] and
+   the tags are not touched.  Otherwise [units] is restored afterwards, so
+   only the verdict and the tags are returned.                           *)
 Definition check_line (nb : nat) (clauses : cnf) (u : list Z) (t : list bool)
            (line : clause) : option bool * list bool :=
-  up_unsat (S (length clauses)) nb clauses (neg_assign u line) t.
+  if is_taut line then (Some true, t)
+  else up_unsat (S (length clauses)) nb clauses (neg_assign u line) t.
 
 (* A certificate line after strings.Fields. *)
 Inductive tok := TInt (z : Z) | TWord.
@@ -161,7 +173,7 @@ Fixpoint parse_clause (fields : list tok) : option clause :=
     end
   end.
 
-(* check.go:47-58 / 85-96 *)
+(* check.go:54-65 / 92-103 *)
 Definition parse_line (fields : list tok) : line_res :=
   match fields with
   | [] => LSkip
@@ -180,8 +192,8 @@ Record check_out := mkOut {
 Definition is_nil {A : Type} (l : list A) : bool :=
   match l with [] => true | _ => false end.
 
-(* The loops of Unsat ([early = false], check.go:83-106) and UnsatChan
-   ([early = true], check.go:46-73).                                     *)
+(* The loops of Unsat ([early = false], check.go:90-113) and UnsatChan
+   ([early = true], check.go:53-80).                                     *)
 Fixpoint check_lines (early : bool) (nb : nat) (clauses : cnf) (u : list Z)
          (t : list bool) (lines : list line_res) : check_out :=
   match lines with
@@ -250,7 +262,7 @@ Definition lit_in_rangeb (n : nat) (l : lit) : bool :=
 Definition range_okb (n : nat) (f : cnf) : bool := forallb (forallb (lit_in_rangeb n)) f.
 
 (* ------------------------------------------------------------------ *)
-(* UnsatSubset -- check.go:117-153.  The solver is not modelled: its
+(* UnsatSubset -- check.go:124-160.  The solver is not modelled: its
    observable behaviour is an input: [trivial] (ParseSlice answered Unsat),
    [status_sat] (Solve answered Sat) and the certificate lines it sent. *)
 
